@@ -100,6 +100,19 @@ def run(ctx):
         ctx.coverage["distinct_nontrivial"] += len(qg)
         ctx.sample({"kind": "quota case on real muxes", "record": qg[5]})
         validate(ctx, qout, wd, "quota")
+        # a user's first sessions arrive concurrently: the counter is created while it is first being used
+        fout = os.path.join(wd, "first.ndjson")
+        rc, log, _ = vlib.go_test("./c19/", "TestConcurrentFirstSessions$", env={"VERIF_OUT": fout, "VERIF_SEED": ctx.seed}, timeout=900)
+        if rc != 0 or not os.path.exists(fout):
+            raise Inconclusive("driver TestConcurrentFirstSessions failed:\n" + log[-3000:])
+        fg = vlib.read_ndjson(fout)
+        ctx.coverage["evaluations"] += len(fg)
+        ctx.coverage["concurrent_first_session_trials"] = len(fg)
+
+        def dfirst(rec, inv):
+            return ("%s: %d concurrent first sessions of a new user: the application received %d bytes, the user's upload counter says %d"
+                    % (inv, rec["sessions"], rec["delivered"], rec["counted"]), "C19:%s" % inv)
+        vlib.validate_records(ctx, "Trace_FirstSessions", "Trace_FirstSessions", fout, ("FirstSessionsCounted",), dfirst, wd)
     finally:
         shutil.rmtree(wd, ignore_errors=True)
 
